@@ -156,6 +156,10 @@ func H_C04_typed(v *V) {
 		} else {
 			fault = []string{"--help"}
 		}
+		if v.Choice(2) == 1 {
+			// help requested while a command is active (the first word fills the positional)
+			fault = append([]string{"w", "cmd"}, fault...)
+		}
 		want = ErrHelp
 	}
 	// valid surroundings
@@ -184,6 +188,14 @@ func H_C04_typed(v *V) {
 	t, typed := vErrType(err)
 	v.Assert(typed, "the rejection is a *flags.Error")
 	v.Assert(t == want, "the rejection carries the documented error type for its cause")
+	out, errOut := v.Stdout(), v.Stderr()
+	if opts&PrintErrors == 0 {
+		v.Assert(out == "" && errOut == "", "nothing is written unless PrintErrors is set")
+	} else if t == ErrHelp {
+		v.Assert(v.EqStr(out, err.Error()+"\n") && errOut == "", "help is written exactly once, to standard output")
+	} else {
+		v.Assert(v.EqStr(errOut, err.Error()+"\n") && out == "", "an error is written exactly once, to standard error")
+	}
 	if class == 0 {
 		v.Assert(v.Contains(err.Error(), V), "an unknown-flag error names the flag")
 	}
